@@ -136,7 +136,7 @@ CHECKS["C11"] = {
     "engine": "E2 history explorer",
     "jobs": lambda tier: [job("C11.cpp", "C11_w%d" % w, ["-DVWORLD=%d" % w], shards=1) for w in range(6)],
     "rule": "state = operation history over {update with 6 data sets (same shape / other segment count / other coefficient count / two invalid), evaluate at orders 0/1/top/beyond, hinted evaluate, derivative trajectory, copy-assign, copy-construct, self-assign, swap roles, ...} for PPolyND<2,Dynamic>, PPolyND<2,8>, PPolyND<1,12>, and {update via both overloads with 4 problems, evaluate trajectory, getTrajectoryCopy, copy-assign/construct spline, update copy, propagateGrad, ...} for the three spline classes; after EVERY transition every live object must evaluate (all orders, probe grid, plain + hinted) bit-identically to a fresh object built from its own latest data; distinct = distinct canonical keys (entire private state incl. lazy caches and ready flags); non-trivial = histories of length >= 2",
-    "bounds": {"quick": "6 worlds, BFS to depth 8 or fixpoint (all histories of length <= 3 without de-duplication)", "thorough": "6 worlds, BFS to depth 20 or fixpoint"},
+    "bounds": {"quick": "PPolyND worlds: BFS to depth 8 or fixpoint; spline worlds: BFS to depth 6 (all histories of length <= 3 without de-duplication)", "thorough": "6 worlds, BFS to depth 20 or fixpoint"},
     "thresholds": {"all comparisons": "bitwise"},
     "assumptions": ASSUME_COMMON + ["canonical key reads private members through -fno-access-control"],
     "technique": TECH_E2 + "; oracle = fresh-object differential (R5), bitwise",
